@@ -141,7 +141,6 @@ struct NewObj {
     bool freq_set = false, m_error = false, pristine = true, partial_s = false, has_cal = false, ever_solved = false;
     bool had_fail = false, ok_after_fail = false, failed_solve = false, retried = false;
     std::set<int> registered;        // parameters (pool index) used by accepted standards
-    std::set<int> stale;             // parameters of rejected standards (open finding: they may stay registered)
     std::vector<HistOp> hist; std::vector<std::string> hist_desc;
     int refused = 0;
 };
@@ -176,11 +175,11 @@ struct Exec {
     long ncalls = 0;
     // what the non-trivial rules need
     bool did_solve = false, did_saveload = false, fail_then_ok = false, did_retry = false, did_compare = false;
-    bool excl_zero_freq = false, excl_unknown_rollback = false;
+    bool excl_zero_freq = false;
 
     bool quiet = false;               // destructor path: free without telling the observer
     const char *strict_fn = getenv("APIX_STRICT");
-    bool no_exclude = getenv("APIX_NO_EXCLUDE") != nullptr;   // developer switch: generate the regions of the open findings too
+    bool no_exclude = getenv("APIX_NO_EXCLUDE") != nullptr;   // developer switch: generate the region of the open finding (zero-frequency calibrations) too
 
     Exec(Ctx &c_, Observer *o) : c(c_), obs(o), pg(c_) {}
     ~Exec() { quiet = true; free_all(); }
